@@ -12,9 +12,81 @@ TAGS = ['C07']
 WEIGHTS = {'iter': 26, 'cb': 22, 'makeMut': 10, 'makeUnique': 6, 'unwrapOrClone': 8, 'intoThin': 6, 'writeSlot': 8}
 
 
+ALLOC_OPS = [
+    "create 0 new 1:1", "create 0 newB 1:1", "create 0 fromBox 1:1", "create 0 uniqueNew 1:1",
+    "create 0 fromVec 3 1:1,2:2", "create 0 fromVec 0 -", "create 0 hsFromVec 9:9 2 1:1,2:2", "create 0 hwlFromVec 9:9 2 2 1:1,2:2",
+    "create 0 newUninit", "create 0 uniqueNewUninit", "create 0 newUninitSlice 3", "create 0 uniqueNewUninitSlice 3", "create 0 hsUninit 9:9 2",
+    "iter 0 hsFromIter 9:9 lens=- hints=- items=1:1,2:2 panic=-", "iter 0 thinFromIter 9:9 lens=- hints=- items=1:1,2:2 panic=-",
+    "iter 0 fromIter - lens=- hints=- items=1:1,2:2,3:3 panic=-", "iter 0 fromIter - lens=- hints=0:* items=1:1,2:2,3:3,4:4,5:5 panic=-",
+    "iter 0 uniqueFromIter - lens=- hints=0:* items=1:1,2:2 panic=-", "iter 0 uniqueFromIter - lens=- hints=- items=- panic=-",
+]
+SETUP_OPS = {"makeMut 0 7 0": ["create 0 new 1:1", "clone 1 0"], "makeUnique 0 7 0": ["create 0 new 1:1", "clone 1 0"],
+             "makeMut 1 7 0": ["create 0 new 1:1", "clone 1 0", "conv 1 intoRawOffset"]}
+
+
+def alloc_failure_pass(ctx):
+    """fault enumeration for the last clause of C07: the allocator reports failure at each allocation a
+    constructor (or make_mut) performs, one child process per (op, k); the process must end through the
+    allocation-error path (message + abort), never by a fault such as SIGSEGV.  In the model an
+    allocation failure is an outcome with no effect on memory (Props/C07.lean `C07_alloc_failure_no_write`)."""
+    import subprocess
+    from concurrent.futures import ThreadPoolExecutor
+    from vlib import common
+    exe, out = common.cargo_build_bin(ctx, "hist")
+    if exe is None:
+        return
+    cases = [([], op) for op in ALLOC_OPS] + [(pre, op) for op, pre in SETUP_OPS.items()]
+
+    def child(pre, op, k):
+        text = "reset\n" + "".join(x + "\n" for x in pre) + "failalloc %d\n%s\n" % (k, op)
+        try:
+            p = subprocess.run([exe], input=text, capture_output=True, text=True, timeout=60)
+            return p.returncode, p.stdout, p.stderr
+        except subprocess.TimeoutExpired:
+            return 124, "", "timeout"
+
+    def sweep(c):
+        pre, op = c
+        res = []
+        for k in range(0, 14):
+            rc, so, se = child(pre, op, k)
+            res.append((k, rc, so.strip().split("\n")[-1][:160] if so.strip() else "", se.strip().split("\n")[0][:160] if se.strip() else ""))
+            if rc == 0:
+                break
+        return res
+    with ThreadPoolExecutor(max_workers=12) as ex:
+        allres = list(ex.map(sweep, cases))
+    bad = []
+    n = 0
+    injected = 0
+    for (pre, op), res in zip(cases, allres):
+        for (k, rc, so, se) in res:
+            n += 1
+            if rc == 0:
+                if not so.startswith("ok"):
+                    bad.append((pre, op, k, rc, so, se, "completed but not ok"))
+                continue
+            injected += 1
+            if not (rc == -6 and "memory allocation of" in se):
+                bad.append((pre, op, k, rc, so, se, "did not end through the allocation-error path (expected the `memory allocation of N bytes failed` message and SIGABRT)"))
+        if res and res[-1][1] != 0:
+            bad.append((pre, op, res[-1][0], res[-1][1], "", res[-1][3], "never completed within 14 allocations"))
+    ctx.oblige("faults:allocation-failure-at-every-allocation", not bad, "%d failing" % len(bad))
+    ctx.coverage["allocation_failure"] = {"children": n, "failures_injected": injected, "ops": len(cases),
+                                          "sample": {"op": cases[4][1], "results": [(k, rc, se) for (k, rc, so, se) in allres[4]]}}
+    ctx.coverage["evaluations"] = ctx.coverage.get("evaluations", 0) + n
+    if bad:
+        body = ["allocation failure injected at the k-th allocation made inside the library call (one child process each):", ""]
+        for (pre, op, k, rc, so, se, why) in bad[:6]:
+            body += ["ops  : " + " ; ".join(pre + ["failalloc %d" % k, op]), "  exit status %s  stderr: %s" % (rc, se), "  PROPERTY C07 FAILS: " + why, ""]
+        body.append("replay: printf 'reset\\n<ops, one per line>\\n' | <harness hist binary>")
+        ctx.violation("child", "\n".join(body), True)
+
+
 def run(ctx):
     histcheck.run(ctx, MODULE, WEIGHTS, TAGS, lean_extra=EXTRA,
                   release_quick_filter=lambda h: any(op.split()[0] in ('iter', 'cb') for op in h))
+    alloc_failure_pass(ctx)
 
 
 def replay(ctx, path):
